@@ -154,8 +154,19 @@ class spmatrix:
         for r in range(self._shape[0]):
             yield self.tocsr().getrow(r)
 
-    def getnnz(self):
-        return self.nnz
+    def getnnz(self, axis=None):
+        if axis is None:
+            return self.nnz
+        c = self.tocoo()
+        n = self._shape[1] if axis in (0, -2) else self._shape[0]
+        out = np.zeros(n, dtype=np.int64)
+        for r, cc in zip(c.row, c.col):
+            out[int(cc) if axis in (0, -2) else int(r)] += 1
+        return out
+
+    @property
+    def size(self):
+        return self.nnz             # scipy: number of stored values
 
     def count_nonzero(self):
         return sum(1 for v in self.tocoo().data if v != 0)
